@@ -312,23 +312,58 @@ def item(key, mod, traces):
     return {"key": key, "mod": mod.m if isinstance(mod, Mod) else mod, "traces": [t for t in traces if t]}
 
 
-def split_traces(calls, risky, chunk=400):
-    """One trace with the ordinary calls (split into chunks), one trace per risky call."""
+def slice_leaf(mod, names):
+    """Module with only the exported functions `names` (for modules whose functions do not call each other and
+    that have no imports, table, elements or start function): the same types, memory, globals and data."""
+    m = mod.m if isinstance(mod, Mod) else mod
+    assert not m["imports"] and not m["tables"] and not m["elems"] and m["start"] < 0
+    out = {k: (list(v) if isinstance(v, list) else v) for k, v in m.items()}
+    keep = [e for e in m["exports"] if e["kind"] == "func" and e["name"] in names]
+    out["funcs"] = [m["funcs"][e["idx"]] for e in keep]
+    assert not any(i["op"] in ("call", "call_indirect") for f in out["funcs"] for i in f["body"])
+    out["exports"] = [e for e in m["exports"] if e["kind"] != "func"] + \
+                     [{"name": e["name"], "kind": "func", "idx": k} for k, e in enumerate(keep)]
+    return out
+
+
+def explode(key, mod, calls, risky, ntraps, rng, chunk=150, leaf=True):
+    """-> items: the module with the ordinary calls (traces of <= chunk calls) and, for `ntraps` of the calls that
+    are meant to trap (or to kill a native process), one item each: a module reduced to the called function and a
+    single one-call trace."""
     safe = [c for c, r in zip(calls, risky) if not r]
-    out = [safe[k:k + chunk] for k in range(0, len(safe), chunk)]
-    out += [[c] for c, r in zip(calls, risky) if r]
+    out = [item(key, mod, [safe[k:k + chunk] for k in range(0, len(safe), chunk)])]
+    byfn = {}
+    for c, r in zip(calls, risky):
+        if r:
+            byfn.setdefault(c["fn"], []).append(c)
+    fns = sorted(byfn)
+    if len(fns) > ntraps:
+        rng.shuffle(fns)
+    rk = []
+    while any(byfn.values()):          # round robin over the functions, each in its listed order
+        for f in fns:
+            if byfn[f]:
+                rk.append(byfn[f].pop(0))
+    for j, c in enumerate(rk[:ntraps]):
+        m = slice_leaf(mod, [c["fn"]]) if leaf else mod
+        out.append(item("%s.risk%d_%s" % (key, j, c["fn"]), m, [[c]]))
     return out
 
 
 # ---------------------------------------------------------------------------------------------------
 # directed modules
 # ---------------------------------------------------------------------------------------------------
-def m_binops(t, rng, npairs, ntraps):
+BIN_GROUPS = {"a": ["add", "sub", "mul", "div_s", "div_u"], "b": ["rem_s", "rem_u", "and", "or", "xor"],
+              "c": ["shl", "shr_s", "shr_u", "rotl", "rotr"]}
+
+
+def m_binops(t, grp, rng, npairs, ntraps):
     m = Mod()
-    for o in BIN:
+    ops = BIN_GROUPS[grp]
+    for o in ops:
         m.func([t, t], [t], [], [lget(0), lget(1), simple("%s.%s" % (t, o))], export=o)
     calls, risky = [], []
-    for o in BIN:
+    for o in ops:
         ps = pairs(t, rng, npairs)
         extra = []
         if o in ("div_s", "div_u", "rem_s", "rem_u"):
@@ -337,6 +372,8 @@ def m_binops(t, rng, npairs, ntraps):
         if o in ("shl", "shr_s", "shr_u", "rotl", "rotr"):
             b = BITS[t]
             extra = [(x, c) for x in (1, -1, 1 << (b - 1), 0x12345678) for c in (0, 1, b - 1, b, b + 1, 2 * b, -1, 255, 256)]
+            rng.shuffle(extra)
+            extra = extra[:max(npairs, 12)]
         seen = set()
         for a, b_ in extra + ps:
             a, b_ = signed(a, t), signed(b_, t)
@@ -345,19 +382,24 @@ def m_binops(t, rng, npairs, ntraps):
             seen.add((a, b_))
             calls.append(C(o, [a, b_], [t, t]))
             risky.append(will_trap_bin(o, a, b_, t))
-    tr = split_traces(calls, risky)
-    # keep only ntraps risky traces (the rest is covered by the thorough tier)
-    safe_n = len([1 for r in risky if not r])
-    nsafe_tr = len(tr) - (len(risky) - safe_n)
-    risky_tr = tr[nsafe_tr:]
-    rng.shuffle(risky_tr)
-    return item("bin_" + t, m, tr[:nsafe_tr] + risky_tr[:ntraps])
+    return explode("bin_%s_%s" % (t, grp), m, calls, risky, ntraps, rng)
 
 
-def m_cmp_un(t, rng, npairs):
+def m_cmp(t, rng, npairs):
     m = Mod()
     for o in CMP:
         m.func([t, t], [I32], [], [lget(0), lget(1), simple("%s.%s" % (t, o))], export=o)
+    calls = []
+    for o in CMP:
+        for a, b in pairs(t, rng, npairs):
+            calls.append(C(o, [a, b], [t, t]))
+        for a in boundary(t)[:3]:
+            calls.append(C(o, [a, a], [t, t]))
+    return [item("cmp_" + t, m, [calls[k:k + 150] for k in range(0, len(calls), 150)])]
+
+
+def m_unary(t, rng, npairs):
+    m = Mod()
     for o in UN:
         m.func([t], [t], [], [lget(0), simple("%s.%s" % (t, o))], export=o)
     m.func([t], [I32], [], [lget(0), simple(t + ".eqz")], export="eqz")
@@ -373,95 +415,108 @@ def m_cmp_un(t, rng, npairs):
     m.func([t, t], [t], [t], [lget(0), lget(1), simple("drop"), ltee(2), simple("nop"), lget(2),
                                simple(t + ".add")], export="tee")
     calls = []
-    for o in CMP:
-        for a, b in pairs(t, rng, npairs):
-            calls.append(C(o, [a, b], [t, t]))
-        for a in boundary(t)[:6]:
-            calls.append(C(o, [a, a], [t, t]))
-    one = boundary(t) + [signed(rng.getrandbits(BITS[t]), t) for _ in range(npairs // 2)]
+    bv = boundary(t)
+    rng.shuffle(bv)
+    one = bv[:npairs] + [signed(rng.getrandbits(BITS[t]), t) for _ in range(npairs // 3)] + [0, -1, signed(1 << (BITS[t] - 1), t)]
     for o in UN + ["eqz"] + exts:
         for a in one:
             calls.append(C(o, [a], [t]))
     if t == I64:
         for a in one:
             calls.append(C("wrap", [a], [I64]))
-        for a in boundary(I32):
+        for a in boundary(I32)[::2]:
             calls.append(C("ext_s", [a], [I32]))
             calls.append(C("ext_u", [a], [I32]))
-    for a, b in pairs(t, rng, 6):
+    for a, b in pairs(t, rng, 4):
         for c in (0, 1, -1, 256, 1 << 31):
             calls.append(C("sel", [a, b, signed(c, I32)], [t, t, I32]))
         calls.append(C("tee", [a, b], [t, t]))
-    return item("cmpun_" + t, m, split_traces(calls, [False] * len(calls)))
+    return [item("unary_" + t, m, [calls[k:k + 150] for k in range(0, len(calls), 150)])]
 
 
-def m_memory(rng, nvals, ntraps):
-    """Loads/stores of every width, with offsets, at the boundaries of a 1-page memory (max 3), grow/size."""
+def _mem_base():
     m = Mod()
     m.memory(1, 3)
     m.data(0, [1, 2, 3, 4, 5, 6, 7, 8])
     m.data(65528, [0x80, 0x81, 0x82, 0x83, 0xF4, 0xF5, 0xF6, 0xF7])
     m.data(100, [0xFF, 0x7F, 0x80, 0x00, 0xFF, 0xFF, 0xFF, 0xFF, 0x01])
-    g = m.glob(I32, True, 0, export="g0")
-    names = []
-    for t in (I32, I64):
-        for o in LOADS[t]:
-            for off in (0, 4, 65528):
-                nm = "%s_%s_%d" % (t, o, off)
-                m.func([I32], [t], [], [lget(0), mem("%s.%s" % (t, o), off)], export=nm)
-                names.append(("ld", t, o, off, nm))
-        for o in STORES[t]:
-            for off in (0, 3):
-                nm = "%s_%s_%d" % (t, o, off)
-                m.func([I32, t], [], [], [lget(0), lget(1), mem("%s.%s" % (t, o), off)], export=nm)
-                names.append(("st", t, o, off, nm))
-    m.func([I32], [I32], [], [lget(0), mem("i32.load", 0xFFFFFFFF)], export="ld_maxoff")
-    m.func([I32], [I32], [], [lget(0), mem("i32.load8_u", 0xFFFFFFFF)], export="ld8_maxoff")
-    m.func([I32], [I32], [], [lget(0), mem("i32.load16_u", 1, align=0)], export="ld16_unaligned")
-    m.func([], [I32], [], [simple("memory.size")] , export="size")
-    m.func([I32], [I32], [], [lget(0), ins("memory.grow", m=0), ltee(0), gset(g), lget(0)], export="grow")
+    return m
+
+
+def m_loads(t, rng, ntraps):
+    """Loads of every width with offsets 0 / 4 / 65528 around the edges of a one-page memory."""
+    m = _mem_base()
     calls, risky = [], []
 
     def add(c, r=False):
         calls.append(c)
         risky.append(r)
 
-    for kind, t, o, off, nm in names:
+    for o in LOADS[t]:
         n = acc_bytes(t, o)
-        if kind == "ld":
+        for off in (0, 4, 65528):
+            nm = "%s_%d" % (o, off)
+            m.func([I32], [t], [], [lget(0), mem("%s.%s" % (t, o), off)], export=nm)
             bases = [0, 1, 3, 100, 101, 104] if off < 65528 else [0, 1, 4, 7, 8 - n]
             for b in bases:
-                inb = b + off + n <= 65536
-                add(C(nm, [b], [I32]), not inb)
+                add(C(nm, [b], [I32]), b + off + n > 65536)
             add(C(nm, [65536 - off - n], [I32]))                    # last valid address
             add(C(nm, [65536 - off - n + 1], [I32]), True)         # first invalid one
             add(C(nm, [-1], [I32]), True)                          # base 0xFFFFFFFF
             add(C(nm, [signed(0x80000000, I32)], [I32]), True)
-        else:
-            vals = [signed(x, t) for x in (0x0123456789ABCDEF, -1, 0x80, 0x8000, 0x80000000)][:nvals]
+    if t == I32:
+        m.func([I32], [I32], [], [lget(0), mem("i32.load", 0xFFFFFFFF)], export="maxoff")
+        m.func([I32], [I32], [], [lget(0), mem("i32.load8_u", 0xFFFFFFFF)], export="maxoff8")
+        m.func([I32], [I32], [], [lget(0), mem("i32.load16_u", 1, align=0)], export="unaligned")
+        for b in (0, 1, 2):
+            add(C("maxoff", [b], [I32]), True)
+            add(C("maxoff8", [b], [I32]), True)
+        add(C("unaligned", [0], [I32]))
+        add(C("unaligned", [100], [I32]))
+    return explode("ld_" + t, m, calls, risky, ntraps, rng)
+
+
+def m_stores(t, rng, ntraps):
+    m = _mem_base()
+    g = m.glob(I32, True, 0, export="g0")
+    calls, risky = [], []
+
+    def add(c, r=False):
+        calls.append(c)
+        risky.append(r)
+
+    m.func([I32], [I64], [], [lget(0), mem("i64.load")], export="rd")
+    for o in STORES[t]:
+        n = acc_bytes(t, o)
+        for off in (0, 3):
+            nm = "%s_%d" % (o, off)
+            m.func([I32, t], [], [], [lget(0), lget(1), mem("%s.%s" % (t, o), off)], export=nm)
+            vals = [signed(x, t) for x in (0x0123456789ABCDEF, -1, 0x80, 0x8000, 0x80000000)]
             for k, v in enumerate(vals):
                 add(C(nm, [200 + 16 * k + (k % 3), v], [I32, t]))
+                add(C("rd", [200 + 16 * k], [I32]))
             add(C(nm, [65536 - off - n, vals[0]], [I32, t]))
+            add(C("rd", [65528], [I32]))
             add(C(nm, [65536 - off - n + 1, vals[1]], [I32, t]), True)
             add(C(nm, [-4, vals[0]], [I32, t]), True)
-    for b in (0, 1, 2):
-        add(C("ld_maxoff", [b], [I32]), True)
-        add(C("ld8_maxoff", [b], [I32]), True)
-    add(C("ld16_unaligned", [0], [I32]))
-    add(C("ld16_unaligned", [100], [I32]))
-    # read back what the stores wrote
-    for a in (200, 216, 232, 248, 264, 65528, 65532):
-        add(C("i64_load_0", [a], [I32]))
-    safe = [c for c, r in zip(calls, risky) if not r]
-    grow = [C("size", [], []), C("grow", [1], [I32]), C("size", [], []), C("i32_store_0", [65536 + 8, 77], [I32, I32]),
-            C("i32_load_0", [65536 + 8], [I32]), C("grow", [2], [I32]), C("grow", [1], [I32]), C("size", [], []),
+    return explode("st_" + t, m, calls, risky, ntraps, rng)
+
+
+def m_grow(rng):
+    m = _mem_base()
+    g = m.glob(I32, True, 0, export="g0")
+    m.func([], [I32], [], [simple("memory.size")], export="size")
+    m.func([I32], [I32], [], [lget(0), ins("memory.grow", m=0), ltee(0), gset(g), lget(0)], export="grow")
+    m.func([I32, I32], [], [], [lget(0), lget(1), mem("i32.store")], export="st")
+    m.func([I32], [I32], [], [lget(0), mem("i32.load")], export="ld")
+    m.func([I32], [I64], [], [lget(0), mem("i64.load")], export="ld64")
+    grow = [C("size", [], []), C("grow", [1], [I32]), C("size", [], []), C("st", [65536 + 8, 77], [I32, I32]),
+            C("ld", [65536 + 8], [I32]), C("grow", [2], [I32]), C("grow", [1], [I32]), C("size", [], []),
             C("grow", [0], [I32]), C("grow", [-1], [I32]), C("grow", [65536], [I32]), C("size", [], []),
-            C("i64_load_0", [3 * 65536 - 8], [I32])]
-    risky_tr = [[c] for c, r in zip(calls, risky) if r]
-    rng.shuffle(risky_tr)
-    traces = [safe, grow] + risky_tr[:ntraps]
-    traces.append(grow[:6] + [C("i32_load_0", [3 * 65536 - 3], [I32])])
-    return item("memory", m, traces)
+            C("ld64", [3 * 65536 - 8], [I32])]
+    return [item("memgrow", m, [grow, grow[:6] + [C("ld", [3 * 65536 - 3], [I32])],
+                                [C("ld", [65536], [I32])], [C("grow", [1], [I32]), C("ld", [2 * 65536 - 4], [I32]),
+                                                            C("ld64", [2 * 65536 - 4], [I32])]])]
 
 
 def m_control(rng):
@@ -616,13 +671,17 @@ def m_init_traps():
 
 
 def directed(rng, thorough=False):
-    npairs = 40 if thorough else 14
-    ntraps = 100 if thorough else 5
+    npairs = 30 if thorough else 9
+    ntraps = 30 if thorough else 3
     out = []
     for t in (I32, I64):
-        out.append(m_binops(t, rng, npairs, ntraps))
-        out.append(m_cmp_un(t, rng, npairs))
-    out.append(m_memory(rng, 5, 200 if thorough else 10))
+        for grp in "abc":
+            out += m_binops(t, grp, rng, npairs, ntraps)
+        out += m_cmp(t, rng, npairs if thorough else 6)
+        out += m_unary(t, rng, npairs)
+        out += m_loads(t, rng, 60 if thorough else 4)
+        out += m_stores(t, rng, 30 if thorough else 2)
+    out += m_grow(rng)
     out.append(m_control(rng))
     out.append(m_calls(rng))
     out.append(m_imports(rng))
@@ -636,8 +695,9 @@ def directed(rng, thorough=False):
 class RandGen:
     """Random valid modules: typed expression trees and structured statements flattened to stack code."""
 
-    def __init__(self, rng, size=1.0, imports=False):
+    def __init__(self, rng, size=1.0, imports=False, ncalls=3):
         self.rng = rng
+        self.ncalls = ncalls
         self.size = size
         self.m = Mod()
         self.use_imports = imports
@@ -761,12 +821,12 @@ class RandGen:
             if r.random() < 0.6:
                 out += [ELSE] + self.inner(lambda: self.stmts(d - 1, 2), [])
             return out + [END]
-        if c < 0.78 and d > 0 and wl and f["ltys"].count(I32) > 0 and len(self.counters) < 2:
+        if c < 0.78 and d > 0 and wl and len(self.counters) < 1:
             # counted loop: fresh i32 counter local
             f["ltys"].append(I32)
             k = len(f["ltys"]) - 1
             self.counters.append(k)
-            n = r.randrange(1, 5)
+            n = r.randrange(1, 4)
             self.labels.append(([], False))      # block
             self.labels.append(([], True))       # loop
             body = self.stmts(d - 1, 2)
@@ -859,17 +919,16 @@ class RandGen:
                     ty = m.type(p_, res_)
                     same = [s for s, (_, p2, r2) in enumerate(table_funcs) if p2 == p_ and r2 == res_]
                     self.table_sigs.setdefault(res_[0], []).append((ty, p_, same))
-        calls = []
+        traces = []
         for name, params in exported:
-            for _ in range(3):
-                calls.append(C(name, [self.cval(p) for p in params], params))
-        return m, calls
+            traces.append([C(name, [self.cval(p) for p in params], params) for _ in range(self.ncalls)])
+        return m, traces
 
 
-def random_item(rng, key, size=1.0, imports=False):
-    g = RandGen(rng, size=size, imports=imports)
-    m, calls = g.module()
-    it = item(key, m, [calls])
+def random_item(rng, key, size=1.0, imports=False, ncalls=3, one_trace=False):
+    g = RandGen(rng, size=size, imports=imports, ncalls=ncalls)
+    m, traces = g.module()
+    it = item(key, m, [[c for t in traces for c in t]] if one_trace else traces)
     if imports:
         it["ext"] = [{"name": im["name"], "ty": (m.m["types"][im["type"]]["results"] or [""])[0],
                       "rets": [g.cval(m.m["types"][im["type"]]["results"][0]) for _ in range(12)]
